@@ -385,11 +385,23 @@ class UnseekableStream(io.StringIO):
 # --------------------------------------------------------------------------
 
 class SimClock:
-    def __init__(self, start_ordinal=738000):
+    def __init__(self, start_ordinal=738000, tick=0.001):
         self.ordinal = start_ordinal
         self.rollover = False
         self.reads = 0
         self.days_covered = 0
+        self.seconds = 0.0        # simulated seconds since the start of the history
+        self.tick = tick          # every read of a time function advances the clock by this much
+
+    def epoch(self):
+        self.reads += 1
+        self.seconds += self.tick
+        return (self.ordinal - 719163) * 86400.0 + 43200.0 + self.seconds
+
+    def mono(self):
+        self.reads += 1
+        self.seconds += self.tick
+        return 1000.0 + self.seconds
 
     def advance(self, days):
         self.ordinal += days
@@ -442,6 +454,33 @@ class SimClock:
                     hits += 1
         _dt.date = SimDate
         _dt.datetime = SimDateTime
+        # the time module: wall clock, monotonic clocks and sleep are simulated
+        # too (a sleep costs nothing and advances the clock); functions already
+        # imported by name into propka modules are replaced there as well
+        import time as _time
+        real = {n: getattr(_time, n) for n in ('time', 'monotonic', 'perf_counter', 'sleep',
+                                               'localtime', 'gmtime', 'time_ns', 'monotonic_ns')}
+
+        def sim_sleep(x):
+            clock.seconds += max(0.0, float(x))
+        sims = {
+            'time': lambda: clock.epoch(),
+            'time_ns': lambda: int(clock.epoch() * 1e9),
+            'monotonic': lambda: clock.mono(),
+            'perf_counter': lambda: clock.mono(),
+            'monotonic_ns': lambda: int(clock.mono() * 1e9),
+            'sleep': sim_sleep,
+            'localtime': lambda *a: real['gmtime'](a[0] if a and a[0] is not None else clock.epoch()),
+            'gmtime': lambda *a: real['gmtime'](a[0] if a and a[0] is not None else clock.epoch()),
+        }
+        for mod in modules:
+            for name, val in list(vars(mod).items()):
+                for n, r in real.items():
+                    if val is r:
+                        setattr(mod, name, sims[n])
+                        hits += 1
+        for n, f in sims.items():
+            setattr(_time, n, f)
         if not hits:
             return 'no propka module holds datetime.date/datetime: clock seam covers late imports only'
         return None
